@@ -240,6 +240,8 @@ def run(ctx):
     explore('sopclass.StorageCommitment.n_event_report', n_event, 'sopclass.StorageCommitment.n_event_report')
 
     ctx.extra['provider_functions'] = infos
+    from ..services import install_native_replayer
+    install_native_replayer(ctx)
     ctx.assumptions += [
         'request consistency: the SOP class of the request equals the abstract syntax of the presentation context '
         'it arrived on (PS3.7; the acceptor routes by context id)',
